@@ -10,6 +10,10 @@ structure RtpInfoEntry.WellFormed (e : RtpInfoEntry) : Prop where
   seq : ∀ n, e.seq = some n → n < 2 ^ 16
   ts : ∀ n, e.ts = some n → n < 2 ^ 32
 
+instance RtpInfoEntry.decWellFormed (e : RtpInfoEntry) : Decidable e.WellFormed :=
+  decidable_of_iff (';' ∉ e.url ∧ ',' ∉ e.url ∧ e.url.head? ≠ some '"' ∧ (∀ n, e.seq = some n → n < 2 ^ 16) ∧ (∀ n, e.ts = some n → n < 2 ^ 32))
+    ⟨fun ⟨a, b, c, d, f⟩ => ⟨a, b, c, d, f⟩, fun ⟨a, b, c, d, f⟩ => ⟨a, b, c, d, f⟩⟩
+
 def RtpInfoEntry.elems (e : RtpInfoEntry) : List Elem :=
   [Elem.plain cs!"url" e.url]
   ++ (match e.seq with | some n => [Elem.plain cs!"seq" (dec n)] | none => [])
@@ -73,6 +77,11 @@ theorem RtpInfo.unmarshalEach_marshal : ∀ (es : List RtpInfoEntry), (∀ e ∈
 structure RtpInfo.WellFormed (h : List RtpInfoEntry) : Prop where
   ne : h ≠ []
   entries : ∀ e ∈ h, e.WellFormed
+
+instance RtpInfo.decWellFormed (h : List RtpInfoEntry) : Decidable (RtpInfo.WellFormed h) :=
+  decidable_of_iff (h ≠ [] ∧ ∀ e ∈ h, e.WellFormed) ⟨fun ⟨a, b⟩ => ⟨a, b⟩, fun ⟨a, b⟩ => ⟨a, b⟩⟩
+
+example : RtpInfo.WellFormed [{ url := cs!"rtsp://h/a b", seq := some 65535, ts := some 4294967295 }, { url := [] }] := by decide
 
 theorem RtpInfo.unmarshal_marshal (h : List RtpInfoEntry) (wf : RtpInfo.WellFormed h) :
     RtpInfo.unmarshal [RtpInfo.marshal h] = .ok h := by
